@@ -10,6 +10,9 @@ searches it for `wasi_thread_start`):
         "{(wasmFunc)" <function export.index> "," <string literal export.name> "},\\n" }
     "{NULL,NULL}\\n};\\n\\n"
 
+Read on the normal form of tools/extract/cnorm.py: `if (k != F) continue; ROW` ≡ `if (k == F) { ROW }`, counting with an early
+`continue` ≡ counting under a positive test, for ≡ while, local names free, temporaries substituted.  Also `wasmCWriteMemoryExport`: the
+memory index handed to wasmCWriteFileMemoryUse in the body of a `<module>_<name>` memory accessor (`export.index` or a constant).
 Extracted as DATA: the bound of each loop (`module->exports.count` = all exports, or `functionExportCount` = the number counted by
 the first loop), that both loops start at 0 and step by 1 over `module->exports.exports[exportIndex]`, the kind tested and whether
 the row loop SKIPS or KEEPS on it, which fields feed the row (export.index, export.name), the constant added to the declared size and
@@ -20,49 +23,116 @@ import re
 
 from cfront import ExtractFail
 from gen_instantiate import strip_comments, function_body
+import cnorm
 
 GEN_NAME = "FuncExports"
 C = "w2c2/c.c"
-BOUNDS = {"module->exports.count": "allExports", "functionExportCount": "countedFunctions"}
 KINDS = {"wasmExportKindFunction": "func", "wasmExportKindMemory": "memory", "wasmExportKindTable": "table", "wasmExportKindGlobal": "global"}
+EXP = r"module->exports\.exports\[\$i0\]"
 
 
-def nows(s):
-    return re.sub(r"\s+", "", s)
+def kind_test(c, where):
+    """condition `<export i>.kind == K` -> K"""
+    m = re.fullmatch(EXP + r"\.kind==(\w+)", c) if isinstance(c, str) else None
+    if not m or m.group(1) not in KINDS:
+        raise ExtractFail(where, "loop body is not guarded by a test of the export's kind: %r" % (c,))
+    return KINDS[m.group(1)]
+
+
+def one_loop(nd, where, counter):
+    """('loop', $i0, 0, bound, [('if', kind test, then, else)]) -> (bound fact, kind, keeps?, kept statements)"""
+    if nd[0] != "loop" or nd[2] != "0":
+        raise ExtractFail(where, "expected a loop over the exports from index 0, found %r" % (nd[:4],))
+    if nd[3] == "module->exports.count":
+        bound = "allExports"
+    elif counter is not None and nd[3] == counter:
+        bound = "countedFunctions"
+    else:
+        raise ExtractFail(where, "unknown loop bound `%s`" % nd[3])
+    body = nd[4]
+    if len(body) != 1 or body[0][0] != "if":
+        raise ExtractFail(where, "loop body is not one test of the export's kind")
+    _, c, then, els = body[0]
+    kind = kind_test(c, where)
+    if then and els:
+        raise ExtractFail(where, "both arms of the kind test do something")
+    return bound, kind, bool(then), (then or els)
+
+
+def func_exports(src):
+    body, line = function_body(src, "wasmCWriteModuleFunctionExportsArray", C)
+    where = "%s:%d" % (C, line)
+    nodes = cnorm.normalize(body, where)
+    if len(nodes) != 6 or nodes[0][0] != "do" or not re.fullmatch(r"\$v\d+=0", nodes[0][1]):
+        raise ExtractFail(where, "wasmCWriteModuleFunctionExportsArray has an unexpected shape (%d statements)" % len(nodes))
+    counter = nodes[0][1].split("=")[0]
+    cb, ck, ckeep, cbody = one_loop(nodes[1], where, None)
+    if cbody != [("do", counter + "+=1")] or not ckeep:
+        raise ExtractFail(where, "the first loop does not count the exports of one kind")
+    m = re.fullmatch(r'fprintf\(file,"wasmFuncExport %sFuncExports\[%u\] = \{\\n",moduleName,' + re.escape(counter) + r"\+(\d+)\)", nodes[2][1]) if nodes[2][0] == "do" else None
+    if not m:
+        raise ExtractFail(where, "the array declaration is not `wasmFuncExport <module>FuncExports[<count> + k] = {`")
+    extra = m.group(1)
+    rb, rk, rkeep, rbody = one_loop(nodes[3], where, counter)
+    want = [("do", 'fputs("{(wasmFunc)",file)'),
+            ("do", "wasmCWriteFileFunctionUse(file,module,moduleName,module->exports.exports[$i0].index,false,multipleModules)"),
+            ("do", "fputc(44,file)"),
+            ("do", "wasmCWriteFileStringLiteral(file,module->exports.exports[$i0].name)"),
+            ("do", 'fputs("},\\n",file)')]
+    alt = [want[0], want[1], ("do", 'fputs(",",file)'), want[3], want[4]]
+    if rbody not in (want, alt):
+        raise ExtractFail(where, "a row is not `{(wasmFunc)<function export.index>,<string literal export.name>},`: %r" % (rbody,))
+    if nodes[4] not in (("do", 'fputs("{NULL,NULL}\\n};\\n\\n",file)'),):
+        term = False
+        if nodes[4] != ("do", 'fputs("};\\n\\n",file)'):
+            raise ExtractFail(where, "unexpected text after the rows: %r" % (nodes[4],))
+    else:
+        term = True
+    if nodes[5] != ("return", "true"):
+        raise ExtractFail(where, "unexpected statement at the end")
+    return cb, ck, extra, rb, rk, rkeep, term
+
+
+def memory_export(src):
+    body, line = function_body(src, "wasmCWriteMemoryExport", C)
+    where = "%s:%d" % (C, line)
+    nodes = cnorm.normalize(body, where)
+
+    def find(ns, acc):
+        for nd in ns:
+            if nd[0] == "do":
+                acc.append(nd[1])
+            elif nd[0] == "if":
+                find(nd[2], acc)
+                find(nd[3], acc)
+            else:
+                raise ExtractFail(where, "`%s` statement in wasmCWriteMemoryExport" % nd[0])
+        return acc
+    dos = find(nodes, [])
+    if "wasmCWriteExportName(file,moduleName,export.name)" not in dos:
+        raise ExtractFail(where, "the accessor is no longer named <module>_<export.name>")
+    uses = [x for x in dos if x.startswith("wasmCWriteFileMemoryUse(")]
+    k = dos.index('fputs("return ",file)') if 'fputs("return ",file)' in dos else -1
+    if len(uses) != 1 or k < 0 or dos[k + 1] != uses[0]:
+        raise ExtractFail(where, "the accessor body is not `return <one memory use>;`")
+    m = re.fullmatch(r"wasmCWriteFileMemoryUse\(file,module,(export\.index|\d+),NULL,true\)", uses[0])
+    if not m:
+        raise ExtractFail(where, "the returned memory is `%s`" % uses[0])
+    return ".exportIndex" if m.group(1) == "export.index" else "(.const %s)" % m.group(1)
 
 
 def generate(repo):
     src = strip_comments(open(os.path.join(repo, "w2c2", "c.c")).read())
-    body, line = function_body(src, "wasmCWriteModuleFunctionExportsArray", C)
-    where = "%s:%d" % (C, line)
-    t = nows(body)
-    rx = (r"U32functionExportCount=0;\{U32exportIndex=0;for\(;exportIndex<([\w.>-]+);exportIndex\+\+\)\{"
-          r"constWasmExportexport=module->exports\.exports\[exportIndex\];if\(export\.kind==(\w+)\)\{functionExportCount\+=1;\}\}\}"
-          r'fprintf\(file,"wasmFuncExport%sFuncExports\[%u\]=\{\\n",moduleName,functionExportCount\+(\d+)\);'
-          r"\{U32exportIndex=0;for\(;exportIndex<([\w.>-]+);exportIndex\+\+\)\{"
-          r"constWasmExportexport=module->exports\.exports\[exportIndex\];if\(export\.kind(!=|==)(\w+)\)\{continue;\}"
-          r'fputs\("\{\(wasmFunc\)",file\);wasmCWriteFileFunctionUse\(file,module,moduleName,export\.index,false,multipleModules\);'
-          r"fputc\(',',file\);wasmCWriteFileStringLiteral\(file,export\.name\);"
-          r'fputs\("\},\\n",file\);\}\}'
-          r'fputs\("(\{NULL,NULL\})\\n\};\\n\\n",file\);returntrue;')
-    m = re.fullmatch(rx, t)
-    if not m:
-        raise ExtractFail(where, "wasmCWriteModuleFunctionExportsArray has an unexpected shape")
-    cb, ck, extra, rb, rop, rk, term = m.groups()
-    for b in (cb, rb):
-        if b not in BOUNDS:
-            raise ExtractFail(where, "unknown loop bound `%s`" % b)
-    for k in (ck, rk):
-        if k not in KINDS:
-            raise ExtractFail(where, "unknown export kind `%s`" % k)
-    if BOUNDS[cb] == "countedFunctions":
-        raise ExtractFail(where, "the counting loop is bounded by the count it computes")
+    cb, ck, extra, rb, rk, rkeep, term = func_exports(src)
+    if cb == "countedFunctions":
+        raise ExtractFail(C, "the counting loop is bounded by the count it computes")
+    marg = memory_export(src)
     # the instance gets this table: Instantiate assigns it, NewChild copies the pointer
     ib, il = function_body(src, "wasmCWriteInstantiateFunction", C)
-    if 'fprintf(file,"i->common.funcExports=%sFuncExports;\\n",moduleName)' not in nows(ib):
+    if 'fprintf(file,"i->common.funcExports = %sFuncExports;\\n",moduleName)' not in [x[1] for x in _dos(cnorm.normalize(ib, C))]:
         raise ExtractFail("%s:%d" % (C, il), "Instantiate no longer assigns <module>FuncExports to i->common.funcExports")
     nb, nl = function_body(src, "wasmCWriteNewChildFunction", C)
-    if 'fputs("child->common.funcExports=self->common.funcExports;\\n",file)' not in nows(nb):
+    if 'fputs("child->common.funcExports = self->common.funcExports;\\n",file)' not in [x[1] for x in _dos(cnorm.normalize(nb, C))]:
         raise ExtractFail("%s:%d" % (C, nl), "NewChild no longer copies common.funcExports from self")
     out = ["/- GENERATED by tools/extract/gen_funcexports.py from w2c2/c.c — do not edit. -/",
            "namespace W2c2Verif.Gen.FuncExports",
@@ -77,23 +147,45 @@ def generate(repo):
            "  deriving DecidableEq, Repr, Inhabited",
            "",
            "/-- first loop: counts the exports of this kind … -/",
-           "def countBound : Bound := .%s" % BOUNDS[cb],
-           "def countKind : Kind := .%s" % KINDS[ck],
+           "def countBound : Bound := .%s" % cb,
+           "def countKind : Kind := .%s" % ck,
            "",
            "/-- … the array is declared with that count plus this many rows -/",
            "def declaredExtraRows : Nat := %s" % extra,
            "",
            "/-- second loop: one row `{(wasmFunc)<function export.index>, \"<export.name>\"}` per export that passes the test -/",
-           "def rowBound : Bound := .%s" % BOUNDS[rb],
-           "def rowKind : Kind := .%s" % KINDS[rk],
+           "def rowBound : Bound := .%s" % rb,
+           "def rowKind : Kind := .%s" % rk,
            "/-- `if (export.kind != rowKind) continue;` (true) or `if (export.kind == rowKind) continue;` (false) -/",
-           "def rowKeepsKind : Bool := %s" % ("true" if rop == "!=" else "false"),
+           "def rowKeepsKind : Bool := %s" % ("true" if rkeep else "false"),
            "",
            "/-- the row written after the loop: `{NULL,NULL}` -/",
-           "def terminatorRow : Bool := %s" % ("true" if term == "{NULL,NULL}" else "false"),
+           "def terminatorRow : Bool := %s" % ("true" if term else "false"),
+           "",
+           "/-- the memory a `<module>_<name>` memory accessor returns: the one wasmCWriteFileMemoryUse is given -/",
+           "inductive MemArg",
+           "  | exportIndex         -- export.index",
+           "  | const (n : Nat)     -- a literal memory index",
+           "  deriving DecidableEq, Repr, Inhabited",
+           "",
+           "def memoryExportArg : MemArg := %s" % marg,
            "",
            "end W2c2Verif.Gen.FuncExports"]
     return "\n".join(out) + "\n"
+
+
+def _dos(nodes):
+    for nd in nodes:
+        if nd[0] == "do":
+            yield nd
+        elif nd[0] == "if":
+            for x in _dos(nd[2]):
+                yield x
+            for x in _dos(nd[3]):
+                yield x
+        elif nd[0] in ("loop", "while"):
+            for x in _dos(nd[4] if nd[0] == "loop" else nd[2]):
+                yield x
 
 
 if __name__ == "__main__":
